@@ -1,5 +1,6 @@
 """C12 -- Fourier filters are the documented radial low/high/band-pass gains"""
 from .common import *
+from . import C11 as _c11
 from . import maskmodel
 from .maskmodel import *
 
@@ -86,6 +87,11 @@ def o121(ctx):
             ctx.finding(q, pad_[0].node, f"{name}: the transform is taken on a grid of another size than the map (fftn(x, s=...)): the filter then acts "
                         "on a different periodic lattice -- it no longer commutes with circular shifts of the map and its gain is not a function "
                         "of the map's own integer frequencies", pad_[0].node, m)
+            continue
+        if isinstance(f, imgdom.Filtered) and getattr(f, "offset", None):
+            ctx.finding(q, "returned map", f"{name} adds {tm.show(f.offset[0][1])[:100]} to the filtered map before returning it: the result is no longer the "
+                        "map multiplied component by component with the filter's gain (the zero-frequency component is changed, the filter is no "
+                        "longer linear, high-pass and low-pass no longer add up to the map)", fn, m)
             continue
         if not isinstance(f, imgdom.Filtered) or f.gain is None or f.axes is None:
             raise Unsupported(f"{name} does not return the inverse transform of (FFT(input) * filter array)", fn)
@@ -296,6 +302,7 @@ def o125(ctx):
 
 def _obligations():
     return [
+        Obligation("O12.9", "map files given by path are read as written: same axis permutation on both sides, conversion only when asked (shared with C11)", lambda ctx: (_c11.o111(ctx), _c11.o115(ctx)), floor=37),
         Obligation("O12.1", "hard-edged gains: lowpass 1 iff |k| <= cutoff, highpass complement, bandpass difference; linear/real/shift-commuting", o121, floor=360),
         Obligation("O12.2", "soft-edged variants use the same pipeline, caller's gaussian, edge blur, input shape, default centre", o122, floor=10),
         Obligation("O12.3", "resolution2pixels = round(edge*px/res), pixels2resolution, get_filter_radius and cutoff plumbing", o123, floor=7),
